@@ -1342,3 +1342,93 @@ Proof.
   rewrite (where_from_map_eq _ (fun v => 1 <=? Z.abs v) _ (diff x) 0 (diff_c_changes kind x Hk Hb)).
   split; reflexivity.
 Qed.
+
+(* ------------------------------------------------------------------ *)
+(* round 3: when read_sync fails; the floor is a function of the multiset *)
+(* ------------------------------------------------------------------ *)
+
+(* In the one-word domain read_sync fails in exactly one situation: floor on,
+   analog channels present, empty selection. *)
+Lemma read_sync_none_iff typ ntr c0 c1 c2 c3 start stop one thr gain use_floor raw :
+  nsync_of typ c0 c1 c2 c3 = 1 -> 1 <= ntr ->
+  (forall r, In r raw -> Z.of_nat (length r) = ntr) ->
+  (forall i, In i (analog_indices typ c0 c1 c2 c3) -> 0 <= i < ntr) ->
+  (read_sync typ ntr c0 c1 c2 c3 start stop one thr gain use_floor raw = None <->
+   use_floor = true /\ slice_rows start stop raw = [] /\ analog_indices typ c0 c1 c2 c3 <> []).
+Proof.
+  intros Hns Hntr Hrect Hidx. split.
+  - intros HN.
+    assert (Hsome : (use_floor = false \/ slice_rows start stop raw <> [] \/
+                     analog_indices typ c0 c1 c2 c3 = []) -> False).
+    { intros Hfl.
+      pose proof (read_sync_layout typ ntr c0 c1 c2 c3 start stop one thr gain use_floor raw
+                    Hns Hntr Hrect Hidx Hfl) as HL. cbv zeta in HL. rewrite HL in HN. discriminate. }
+    destruct use_floor; [|exfalso; apply Hsome; left; reflexivity].
+    split; [reflexivity|]. split.
+    + destruct (slice_rows start stop raw) eqn:Es; [reflexivity|].
+      exfalso. apply Hsome. right. left. discriminate.
+    + intros Ei. apply Hsome. right. right. exact Ei.
+  - intros (-> & Es & Hi). unfold read_sync.
+    rewrite (read_sync_digital_one _ _ _ _ _ _ _ _ _ Hns Hntr Hrect).
+    rewrite (read_sync_analog_ok _ _ _ _ _ _ _ _ _ _ Hrect Hidx). rewrite Es.
+    destruct (analog_indices typ c0 c1 c2 c3); [congruence|]. reflexivity.
+Qed.
+
+(* two sorted lists that are permutations of each other are equal *)
+Lemma sorted_perm_eq (a b : list Z) :
+  StronglySorted Z.le a -> StronglySorted Z.le b -> Permutation a b -> a = b.
+Proof.
+  revert b. induction a as [|x a IH]; intros b Ha Hb Hp.
+  - apply Permutation_nil in Hp. now subst.
+  - destruct b as [|y b]; [apply Permutation_sym, Permutation_nil in Hp; discriminate|].
+    inversion Ha as [|? ? Ha' Fa]; subst. inversion Hb as [|? ? Hb' Fb]; subst.
+    rewrite Forall_forall in Fa, Fb.
+    assert (Hxy : x = y).
+    { assert (Hx : In x (y :: b)) by (apply (Permutation_in _ Hp); left; reflexivity).
+      assert (Hy : In y (x :: a)) by (apply (Permutation_in _ (Permutation_sym Hp)); left; reflexivity).
+      destruct Hx as [->|Hx]; [reflexivity|]. destruct Hy as [->|Hy]; [reflexivity|].
+      specialize (Fa y Hy). specialize (Fb x Hx). lia. }
+    subst y. f_equal. apply IH; auto. now apply Permutation_cons_inv in Hp.
+Qed.
+
+Lemma sort_perm_invariant l l' : Permutation l l' -> sort l = sort l'.
+Proof.
+  intros Hp. apply sorted_perm_eq; [apply sort_sorted|apply sort_sorted|].
+  eapply Permutation_trans; [apply sort_perm|].
+  eapply Permutation_trans; [exact Hp|apply Permutation_sym, sort_perm].
+Qed.
+
+(* the floor does not depend on the order of the samples *)
+Lemma pct10x_perm_invariant l l' : Permutation l l' -> pct10x l = pct10x l'.
+Proof.
+  intros Hp. unfold pct10x. rewrite (sort_perm_invariant l l' Hp), (Permutation_length Hp). reflexivity.
+Qed.
+
+(* a constant shift of the column shifts the floor (DC offset removal is exact) *)
+Lemma insert_shift d a l : insert (a + d) (map (fun v => v + d) l) = map (fun v => v + d) (insert a l).
+Proof.
+  induction l as [|b t IH]; cbn [map insert]; [reflexivity|].
+  replace (a + d <=? b + d) with (a <=? b).
+  - destruct (a <=? b); cbn [map]; [reflexivity|now rewrite IH].
+  - destruct (a <=? b) eqn:E1; destruct (a + d <=? b + d) eqn:E2; try reflexivity;
+      try apply Z.leb_le in E1; try apply Z.leb_gt in E1; try apply Z.leb_le in E2; try apply Z.leb_gt in E2; lia.
+Qed.
+
+Lemma sort_shift d l : sort (map (fun v => v + d) l) = map (fun v => v + d) (sort l).
+Proof.
+  induction l as [|a t IH]; [reflexivity|]. unfold sort in *. cbn [map fold_right].
+  rewrite IH. apply insert_shift.
+Qed.
+
+Lemma pct10x_shift d col : col <> [] -> pct10x (map (fun v => v + d) col) = pct10x col + 10 * d.
+Proof.
+  intros Hne. unfold pct10x. rewrite sort_shift, map_length.
+  set (n := Z.of_nat (length col)).
+  assert (Hn : 1 <= n) by (subst n; destruct col; [congruence|cbn [length]; lia]).
+  destruct (pct_indices n Hn) as (H0 & H1 & H2 & H3 & H4 & H5).
+  set (g := fun v => v + d).
+  assert (Hnth : forall i, 0 <= i <= n - 1 -> nth (Z.to_nat i) (map g (sort col)) 0 = nth (Z.to_nat i) (sort col) 0 + d).
+  { intros i Hi. rewrite (nth_indep _ 0 (g 0)) by (rewrite map_length, sort_length; subst n; lia).
+    rewrite (map_nth g). reflexivity. }
+  rewrite !Hnth by lia. ring.
+Qed.
